@@ -1,5 +1,6 @@
 import ParryModel.Proto
 import ParryModel.C14.Model
+import ParryModel.C14.Model2
 /-! C14 protocol handlers: model evaluation at `Float` and exact-`Rat` oracles on implementation output. -/
 namespace C14
 open Model Proto
@@ -170,6 +171,15 @@ def pseq3 : P Seq3 := do
 def capA (hh : Float) : V3 Float := ⟨0.0, -hh, 0.0⟩
 def capB (hh : Float) : V3 Float := ⟨0.0, hh, 0.0⟩
 
+/-- `approx::ulps_eq!(a, b)` on `f64` with the default `epsilon = f64::EPSILON`, `max_ulps = 4` -/
+def ulpsEqF (a b : Float) : Bool :=
+  if Float.abs (a - b) ≤ Float.ofBits 0x3CB0000000000000 then true
+  else if a.isNaN || b.isNaN then false
+  else if (a.toBits >>> 63) != (b.toBits >>> 63) then false
+  else
+    let x := a.toBits.toNat; let y := b.toBits.toNat
+    if x ≤ y then y - x ≤ 4 else x - y ≤ 4
+
 /-- one dispatcher call for a 3-D pair kind -/
 def seqGen3 (s : Seq3) (pos12 : Iso3 Float) (m : Manifold3 Float) : Manifold3 Float :=
   match s.kind with
@@ -181,7 +191,8 @@ def seqGen3 (s : Seq3) (pos12 : Iso3 Float) (m : Manifold3 Float) : Manifold3 Fl
   | 5 => halfspaceDispatch3 (segmentFeature3 (capA s.b.x) (capB s.b.x)) true pos12 s.a s.b.y s.pred
   | 6 => halfspaceDispatch3 (segmentFeature3 (capA s.a.x) (capB s.a.x)) false pos12 s.b s.a.y s.pred
   | 7 => halfspaceDispatch3 (cuboidSupportFace3 s.b) true pos12 s.a s.e s.pred
-  | _ => halfspaceDispatch3 (cuboidSupportFace3 s.a) false pos12 s.b s.e s.pred
+  | 8 => halfspaceDispatch3 (cuboidSupportFace3 s.a) false pos12 s.b s.e s.pred
+  | _ => capsuleCapsule3 ulpsEqF pos12 (capA s.a.x) (capB s.a.x) s.a.y (capA s.b.x) (capB s.b.x) s.b.y s.pred m
 
 def seqModel3 (s : Seq3) : String :=
   String.intercalate " " ((runSeq (seqGen3 s) Manifold3.new s.poses).map fman3)
@@ -195,6 +206,12 @@ inductive Sh3 where
   | halfspace (n : V3 Rat)
   | capsule (hh r : Rat)
   | triangle (a b c : V3 Rat)
+  /-- `Cylinder::new(hh, r)` / `Cone::new(hh, r)` (axis y, apex at `+hh`) / a segment -/
+  | cylinder (hh r : Rat)
+  | cone (hh r : Rat)
+  | segment (a b : V3 Rat)
+  /-- a capsule with an arbitrary axis -/
+  | capsuleAB (a b : V3 Rat) (r : Rat)
 
 def seqShapes3 (s : Seq3) : Sh3 × Sh3 :=
   let a := q3 s.a; let b := q3 s.b; let e := q s.e
@@ -209,7 +226,7 @@ def seqShapes3 (s : Seq3) : Sh3 × Sh3 :=
   | 7 => (.halfspace a, .cuboid b e)
   | 8 => (.cuboid a e, .halfspace b)
   | 9 => (.cuboid a 0, .cuboid b 0)
-  | _ => (.capsule a.x a.y, .capsule b.x b.y)
+  | _ => (.capsuleAB ⟨0, -a.x, 0⟩ ⟨0, a.x, 0⟩ a.y, .capsuleAB ⟨0, -b.x, 0⟩ ⟨0, b.x, 0⟩ b.y)
 
 def clampR (x lo hi : Rat) : Rat := if x < lo then lo else if hi < x then hi else x
 /-- squared distance from `p` to the cuboid `[-he, he]` -/
@@ -260,6 +277,41 @@ def onShape3 (sh : Sh3) (p : V3 Rat) (tol : Rat) : Option String :=
   | .triangle a b c =>
     let d2 := triDistSq3 a b c p
     if leTol d2 0 tol then none else some s!"off-triangle d²={d2}"
+  | .cylinder hh r =>
+    -- squared distance to the solid cylinder: axial excess and radial excess
+    let rho2 := p.x * p.x + p.z * p.z
+    let ey := max 0 (rabs p.y - hh)
+    let er := if rho2 ≤ r * r then 0 else Rat.sqrtApprox rho2 - r
+    let d2 := ey * ey + er * er
+    if leTol d2 0 tol then none else some s!"outside-cylinder |y|={rabs p.y} hh={hh} rho²={rho2} r²={r*r}"
+  | .cone hh r =>
+    -- `|y| ≤ hh` and `rho ≤ R(y) = r (hh − y) / (2hh)`; the radial excess is measured perpendicular to the slanted side
+    let rho2 := p.x * p.x + p.z * p.z
+    let ey := max 0 (rabs p.y - hh)
+    let yc := clampR p.y (-hh) hh
+    let R := r * (hh - yc) / (2 * hh)
+    let er := if rho2 ≤ R * R then 0 else Rat.sqrtApprox rho2 - R
+    let c2 := (4 * hh * hh) / (4 * hh * hh + r * r)
+    let d2 := ey * ey + er * er * c2
+    if leTol d2 0 tol then none else some s!"outside-cone y={p.y} hh={hh} rho²={rho2} R²={R*R}"
+  | .segment a b =>
+    let d2 := segDistSq3 a b p
+    if leTol d2 0 tol then none else some s!"off-segment d²={d2}"
+  | .capsuleAB a b r =>
+    let d2 := segDistSq3 a b p
+    if leTol d2 (r * r) tol then none else some s!"outside-capsule d²={d2} r²={r*r}"
+
+/-- exact squared distance of two segments: the minimum over the four end-point/segment distances and, when it exists, the
+interior critical point of the (convex) squared distance on `(0,1)²` -/
+def segSegDistSq3 (a1 b1 a2 b2 : V3 Rat) : Rat :=
+  let ends := min (min (segDistSq3 a2 b2 a1) (segDistSq3 a2 b2 b1)) (min (segDistSq3 a1 b1 a2) (segDistSq3 a1 b1 b2))
+  let d1 := b1.sub a1; let d2 := b2.sub a2; let r := a1.sub a2
+  let a := d1.dot d1; let e := d2.dot d2; let b := d1.dot d2; let c := d1.dot r; let f := d2.dot r
+  let den := a * e - b * b
+  if den = 0 then ends else
+    let s := (b * f - c * e) / den
+    let t := (a * f - b * c) / den
+    if 0 < s && s < 1 && 0 < t && t < 1 then min ends (((r.add (d1.smul s)).sub (d2.smul t)).normSq) else ends
 
 def vertsCuboid (he : V3 Rat) : List (V3 Rat) :=
   [he.x, -he.x].flatMap fun x => [he.y, -he.y].flatMap fun y => [he.z, -he.z].map fun z => ⟨x, y, z⟩
@@ -288,6 +340,8 @@ def exactDist3 (sh : Sh3 × Sh3) (M : Iso3 Rat) : Rat :=
     min (n.dot (M.act ⟨0, -hh, 0⟩)) (n.dot (M.act ⟨0, hh, 0⟩)) - r
   | (.capsule hh r, .halfspace n) =>
     min (n.dot (M.invAct ⟨0, -hh, 0⟩)) (n.dot (M.invAct ⟨0, hh, 0⟩)) - r
+  | (.capsuleAB a1 b1 r1, .capsuleAB a2 b2 r2) =>
+    sq (segSegDistSq3 a1 b1 (M.act a2) (M.act b2)) - r1 - r2
   | _ => 0
 
 def cos1degR : Rat := 99984769515 / 100000000000
@@ -354,7 +408,7 @@ capsule/capsule): witnesses may drift by `√DIST_SQ_THRESHOLD = 1e-3` per conse
 exact distance of the pair is not recomputed by the oracle (the one-shot `contact` is the reference). -/
 def seqOracle3 (s : Seq3) (warm : Bool) (ms : List (Manifold3 Float)) : String :=
   if ms.length != s.poses.length then "fail wrong-number-of-calls" else
-  if (!warm && s.kind > 8) || (warm && (s.kind < 9 || s.kind > 10)) then "skip unknown-kind" else
+  if (!warm && s.kind > 8 && s.kind != 10) || (warm && (s.kind < 9 || s.kind > 10)) then "skip unknown-kind" else
   let sh := seqShapes3 s
   -- `soft`: the first depth-vs-one-shot discrepancy of a SAT/clipping generator (a known limitation with its own
   -- verdict); the remaining calls are still judged and any other failure takes precedence
@@ -401,6 +455,8 @@ structure CompCase where
   /-- observed: local AABBs of the parts, then per call the query box and the leaves the traversal visits -/
   aabbs : List Box3
   calls : List (Box3 × List Nat)
+  /-- observed: per call the manifolds of a fresh computation (new vector, no workspace) at the same pose -/
+  fresh : List (List (Nat × Nat × Manifold3 Float)) := []
 
 def ppart3 : P Part3 := do let t ← pnat; let p ← pv3; let m ← piso3; pure ⟨t, p, m⟩
 def pobox : P Box3 := do let a ← pov3; let b ← pov3; pure ⟨a, b⟩
@@ -421,9 +477,11 @@ def pcomp (tm : Bool) : P CompCase := do
   let nparts := if tm then ntris else parts.length
   let obs ← (do
       let bbs ← pN pobox nparts
-      let calls ← pN (do let b ← pobox; let ls ← plist pnat; pure (b, ls)) poses.length
-      pure (bbs, calls)) <|> pure ([], [])
-  pure ⟨fl, parts, ntris, t2, q, pr, poses, obs.1, obs.2⟩
+      let calls ← pN (do let b ← pobox; let ls ← plist pnat
+                         let fr ← plist (do let a ← pnat; let b ← pnat; let m ← poman3; pure (a, b, m))
+                         pure ((b, ls), fr)) poses.length
+      pure (bbs, calls.map (·.1), calls.map (·.2))) <|> pure ([], [], [])
+  pure ⟨fl, parts, ntris, t2, q, pr, poses, obs.1, obs.2.1, obs.2.2⟩
 
 abbrev WM := WManifold (Nat × Manifold3 Float) (Iso3 Float)
 
@@ -557,7 +615,23 @@ def compOracle (c : CompCase) (tm : Bool) (outs : List (List OutMan)) : String :
             let sh : Sh3 × Sh3 := if !c.flipped then (partShape part, otherShape c) else (otherShape c, partShape part)
             let known := !(part.ty == 1 && c.s2ty == 1)
             (manifoldOracleQ sh sub c.pred o.m none 0 known).map fun r => s!"call={k} part={i} {r}"
-      match geo with
+      -- the property's reference (Compound only): same part set as a fresh computation and, the narrow phases being closed-form,
+      -- the very same contacts (normals compared when there is a contact: a cleared manifold keeps its old normals)
+      let fresh : Option String := if tm then none else
+        match c.fresh[k]? with
+        | none => none
+        | some fr =>
+          let fid := fr.map fun (a, b, _) => if c.flipped then b else a
+          if !(sameSet ids fid) then some s!"call={k} part-set-differs-from-fresh-computation persisted={ids} fresh={fid}" else
+          (ms.zip ids).findSome? fun (o, i) =>
+            match fr.find? (fun (a, b, _) => (if c.flipped then b else a) == i), c.parts[i]? with
+            | some (_, _, fm), some part =>
+              if part.ty == 1 && c.s2ty == 1 then none else
+              let same := (o.m.points.map fcontact3) == (fm.points.map fcontact3) &&
+                (o.m.points.isEmpty || (fv3 o.m.n1 == fv3 fm.n1 && fv3 o.m.n2 == fv3 fm.n2))
+              if same then none else some s!"call={k} part={i} contacts-differ-from-fresh-computation"
+            | _, _ => none
+      match geo <|> fresh with
       | some r => some r
       | none =>
         let tags := (List.range ms.length).zipWith (fun j i => (i, 1000 * (k + 1) + j + 1)) ids
@@ -581,15 +655,6 @@ def pseq2 : P Seq2 := do
   let poses ← plist piso2
   let o ← (pN (do let f ← pbool; let d ← pfo; pure (f, d)) poses.length) <|> pure []
   pure ⟨k, a, b, pr, poses, o⟩
-
-/-- `approx::ulps_eq!(a, b)` on `f64` with the default `epsilon = f64::EPSILON`, `max_ulps = 4` -/
-def ulpsEqF (a b : Float) : Bool :=
-  if Float.abs (a - b) ≤ Float.ofBits 0x3CB0000000000000 then true
-  else if a.isNaN || b.isNaN then false
-  else if (a.toBits >>> 63) != (b.toBits >>> 63) then false
-  else
-    let x := a.toBits.toNat; let y := b.toBits.toNat
-    if x ≤ y then y - x ≤ 4 else x - y ≤ 4
 
 def seqGen2 (s : Seq2) (pos12 : Iso2 Float) (m : Manifold2 Float) : Manifold2 Float :=
   match s.kind with
@@ -915,6 +980,428 @@ def hf2Oracle (c : HF2) (outs : List (List (Nat × Nat × Manifold2 Float))) : S
   | some r => s!"fail {r}"
   | none => "pass"
 
+/-! ### round fu4: `clip_segment_segment`, Compound-vs-Compound histories, pfm/pfm edge pairs -/
+
+def fclip3 (c : Clip3 Float) : String := s!"{fv3 c.p1} {fv3 c.p2} {c.f1} {c.f2}"
+def fclip2 (c : Clip2 Float) : String := s!"{fv2 c.p1} {fv2 c.p2} {c.f1} {c.f2}"
+def lift3 (v : V2 Float) : V3 Float := ⟨v.x, v.y, 0.0⟩
+
+/-- the property's clauses on the real output of `clip_segment_segment`, exact: `None` iff the projected ranges are
+disjoint; otherwise for both pairs `p1` lies on segment 1, `p2` on segment 2, `p2 − p1` is orthogonal to segment 1, and the
+pairs sit at the two ends of the common range (`max(0, lo₂)` and `min(|t|², hi₂)` in the coordinate `(· − a1)·t`). -/
+def cssOracle (a1 b1 a2 b2 : V3 Float) (out : Option (List (V3 Float × V3 Float))) : String :=
+  let A1 := q3 a1; let B1 := q3 b1; let A2 := q3 a2; let B2 := q3 b2
+  let t := B1.sub A1
+  let sqn := t.normSq
+  let u20 := (A2.sub A1).dot t
+  let u21 := (B2.sub A1).dot t
+  let lo := min u20 u21; let hi := max u20 u21
+  let scale : Rat := 1 + sqn + rabs u20 + rabs u21
+  let tol : Rat := scale / 1000000000
+  if sqn = 0 then "skip point-like-segment-1" else
+  -- 0/0 in the code when segment 2 projects onto a single value (perpendicular or point-like): outside the callers' domain
+  if hi - lo ≤ tol * sqn / scale then "skip zero-projected-length-of-segment-2" else
+  match out with
+  | none => if lo < sqn - tol && hi > tol then s!"fail none-but-ranges-overlap lo={lo} hi={hi} sqn={sqn}" else "pass"
+  | some prs =>
+    if lo > sqn + tol || hi < -tol then s!"fail some-but-ranges-disjoint lo={lo} hi={hi} sqn={sqn}" else
+    if prs.any (fun pr => !(finite3 pr.1 && finite3 pr.2)) then "fail nonfinite-output" else
+    let want : List Rat := [max 0 lo, min sqn hi]
+    let ptol : Rat := (1 + A1.normSq + B1.normSq + A2.normSq + B2.normSq) / 1000000000000
+    let bad := (prs.zip want).findSome? fun (pr, w) =>
+      let p1 := q3 pr.1; let p2 := q3 pr.2
+      if segDistSq3 A1 B1 p1 > ptol then some s!"p1-off-segment-1 d²={segDistSq3 A1 B1 p1}"
+      else if segDistSq3 A2 B2 p2 > ptol then some s!"p2-off-segment-2 d²={segDistSq3 A2 B2 p2}"
+      else if rabs ((p2.sub p1).dot t) > tol then some s!"pair-not-aligned (p2-p1)·t={(p2.sub p1).dot t}"
+      else if rabs ((p1.sub A1).dot t - w) > tol then some s!"not-an-end-of-the-common-range coord={(p1.sub A1).dot t} expected={w}"
+      else none
+    match bad with
+    | some r => s!"fail {r}"
+    | none => if prs.length == 2 then "pass" else "fail wrong-arity"
+
+def pclipOut3 : P (Option (List (V3 Float × V3 Float))) := do
+  let t ← tok
+  if t = "none" then pure none else
+  if t = "some" then do
+    let a ← pov3; let b ← pov3; let _ ← pnat; let _ ← pnat
+    let c ← pov3; let d ← pov3; let _ ← pnat; let _ ← pnat
+    pure (some [(a, b), (c, d)])
+  else failure
+def pclipOut2 : P (Option (List (V3 Float × V3 Float))) := do
+  let t ← tok
+  if t = "none" then pure none else
+  if t = "some" then do
+    let a ← pov2; let b ← pov2; let _ ← pnat; let _ ← pnat
+    let c ← pov2; let d ← pov2; let _ ← pnat; let _ ← pnat
+    pure (some [(lift3 a, lift3 b), (lift3 c, lift3 d)])
+  else failure
+
+/-! #### Compound vs Compound: the keyed state machine against the real dispatcher -/
+
+structure CCCall where
+  flipped : Bool
+  root : Box3
+  /-- visited outer leaves, each with its query box in the inner composite's frame and the inner leaves visited -/
+  outer : List (Nat × Box3 × List Nat)
+  /-- the manifolds of a fresh computation (new vector, no workspace) at the same pose: labels and geometry -/
+  fresh : List (Nat × Nat × Manifold3 Float)
+
+structure CCCase where
+  parts1 : List Part3
+  parts2 : List Part3
+  pred : Float
+  poses : List (Iso3 Float)
+  aabbs1 : List Box3
+  aabbs2 : List Box3
+  calls : List CCCall
+
+def pcc : P CCCase := do
+  let p1 ← plist ppart3; let p2 ← plist ppart3; let pr ← pf
+  let poses ← plist piso3
+  let obs ← (do
+      let b1 ← pN pobox p1.length
+      let b2 ← pN pobox p2.length
+      let calls ← pN (do
+          let fl ← pbool; let rb ← pobox
+          let outer ← plist (do let l ← pnat; let bx ← pobox; let inner ← plist pnat; pure (l, bx, inner))
+          let fresh ← plist (do let a ← pnat; let b ← pnat; let m ← poman3; pure (a, b, m))
+          pure (⟨fl, rb, outer, fresh⟩ : CCCall)) poses.length
+      pure (b1, b2, calls)) <|> pure ([], [], [])
+  pure ⟨p1, p2, pr, poses, obs.1, obs.2.1, obs.2.2⟩
+
+/-- the visited pairs of a call, in visiting order, keyed in caller order -/
+def CCCall.keys (c : CCCall) : List (Nat × Nat) :=
+  c.outer.flatMap fun (l1, _, inner) => inner.map fun l2 => if c.flipped then (l2, l1) else (l1, l2)
+
+/-- the narrow phase of a pair: the pose arithmetic of the two `flipped` arms, then the modelled generator -/
+def ccNarrow (c : CCCase) (flipped : Bool) (P : Iso3 Float) (k : Nat × Nat) (m : WM) : WM :=
+  match c.parts1[k.1]?, c.parts2[k.2]? with
+  | some A, some B =>
+    let sub : Iso3 Float :=
+      if flipped then A.pose.invMul (P.mul B.pose)                       -- `part_pos2.inv_mul(&(pos21 * part_pos1))`
+      else (B.pose.invMul (P.inverse.mul A.pose)).inverse                -- `pos2211.inverse()`
+    let g : Manifold3 Float :=
+      match A.ty, B.ty with
+      | 0, 0 => ballBall3 sub A.p.x B.p.x c.pred m.data.2
+      | 0, _ => convexBallShapes3 (cuboidProject3 B.p) true sub A.p.x c.pred m.data.2
+      | _, 0 => convexBallShapes3 (cuboidProject3 A.p) false sub B.p.x c.pred m.data.2
+      | _, _ => m.data.2
+    { m with data := (m.data.1, g) }
+  | _, _ => m
+
+def ccModel (c : CCCase) : Option String :=
+  let fresh : Nat × Nat → WM :=
+    freshPair (0, Manifold3.new) (fun l => (c.parts1[l]?).map (·.pose)) (fun l => (c.parts2[l]?).map (·.pose))
+  let clr : Nat × Manifold3 Float → Nat × Manifold3 Float := fun d => (d.1, d.2.clear)
+  let rec go (k : Nat) (ws : KWorkspace (Nat × Nat)) (ms : List WM) : List (Iso3 Float) → List CCCall → Option (List String)
+    | [], _ => some []
+    | _, [] => none
+    | P :: ps, call :: cs =>
+      match keyedStep (ccNarrow c call.flipped P) clr fresh ws ms call.keys with
+      | none => some ["panic"]
+      | some (ws', ms') =>
+        let line := String.intercalate " " (toString ms'.length :: ms'.map fwm)
+        (go (k + 1) ws' (retag k ms') ps cs).map (line :: ·)
+  (go 0 KWorkspace.new [] c.poses c.calls).map (String.intercalate " ")
+
+def ccOracle (c : CCCase) (outs : List (List OutMan)) : String :=
+  if outs.length != c.poses.length || c.calls.length != c.poses.length then "fail wrong-number-of-calls" else
+  let n1 := c.parts1.length; let n2 := c.parts2.length
+  let overlapSet (bbs : List Box3) (box : Box3) : List Nat :=
+    (List.range bbs.length).filter fun i => match bbs[i]? with | some b => boxIntersects b box | none => false
+  let rec go (k : Nat) (prev : List ((Nat × Nat) × Nat)) : List (Iso3 Float) → List CCCall → List (List OutMan) → Option String
+    | [], _, _ => none
+    | _, [], _ => none
+    | _, _, [] => none
+    | P :: ps, call :: cs, ms :: rest =>
+      let (bo, bi) := if call.flipped then (c.aabbs2, c.aabbs1) else (c.aabbs1, c.aabbs2)
+      -- the two nested traversals visit exactly the exact box-overlap sets, once each
+      let So := overlapSet bo call.root
+      let outerIds := call.outer.map (·.1)
+      if !(sameSet outerIds So) then some s!"call={k} outer-traversal-visits={outerIds} exact-overlap-set={So}" else
+      let badInner := call.outer.findSome? fun (l1, bx, inner) =>
+        let Si := overlapSet bi bx
+        if !(sameSet inner Si) then some s!"call={k} leaf={l1} inner-traversal-visits={inner} exact-overlap-set={Si}" else none
+      if badInner.isSome then badInner else
+      let K := call.keys
+      if !K.Nodup then some s!"call={k} traversal-visits-a-pair-twice {K}" else
+      -- labels: both leaves in range, both part poses
+      let badLab := ms.findSome? fun o =>
+        match c.parts1[o.s1]?, c.parts2[o.s2]?, o.pos1, o.pos2 with
+        | some A, some B, some m1, some m2 =>
+          if fiso3 m1 == fiso3 A.pose && fiso3 m2 == fiso3 B.pose then none else some s!"call={k} pair=({o.s1},{o.s2}) subshape-pose-of-another-part"
+        | _, _, _, _ => some s!"call={k} malformed-label ({o.s1},{o.s2})"
+      if badLab.isSome then badLab else
+      let ids := ms.map fun o => (o.s1, o.s2)
+      if !ids.Nodup then some s!"call={k} two-manifolds-for-one-pair {ids}" else
+      let missing := K.filter (fun p => !ids.contains p)
+      if !missing.isEmpty then some s!"call={k} no-manifold-for-overlapping-pair {missing}" else
+      let extra := ids.filter (fun p => !K.contains p)
+      if !extra.isEmpty then some s!"call={k} manifold-for-non-overlapping-pair {extra}" else
+      let badTag := (ms.zip ids).filter fun (o, i) =>
+        match prev.find? (·.1 == i) with
+        | some (_, t) => o.tag != t
+        | none => o.tag != 0
+      if !badTag.isEmpty then some s!"call={k} manifold-data-not-following-its-pair {badTag.map (·.2)}" else
+      -- the property's reference: the same pair set as a fresh computation, and (closed-form narrow phases, no warm start)
+      -- the very same contacts; normals compared when there is a contact (a cleared manifold keeps its old normals)
+      let freshIds := call.fresh.map fun (a, b, _) => (a, b)
+      if !(ids.all (freshIds.contains ·) && freshIds.all (ids.contains ·)) then
+        some s!"call={k} pair-set-differs-from-fresh-computation persisted={ids} fresh={freshIds}" else
+      let badFresh := ms.findSome? fun o =>
+        match call.fresh.find? (fun (a, b, _) => a == o.s1 && b == o.s2), c.parts1[o.s1]?, c.parts2[o.s2]? with
+        | some (_, _, fm), some A, some B =>
+          if A.ty == 1 && B.ty == 1 then none else
+          let same := (o.m.points.map fcontact3) == (fm.points.map fcontact3) &&
+            (o.m.points.isEmpty || (fv3 o.m.n1 == fv3 fm.n1 && fv3 o.m.n2 == fv3 fm.n2))
+          if same then none else some s!"call={k} pair=({o.s1},{o.s2}) contacts-differ-from-fresh-computation"
+        | _, _, _ => none
+      if badFresh.isSome then badFresh else
+      let Pq := qiso3 P
+      let subOf (A B : Part3) : Iso3 Rat := (qiso3 A.pose).invMul (Pq.mul (qiso3 B.pose))
+      let geo : Option String := ms.findSome? fun o =>
+        match c.parts1[o.s1]?, c.parts2[o.s2]? with
+        | some A, some B =>
+          let known := !(A.ty == 1 && B.ty == 1)
+          (manifoldOracleQ (partShape A, partShape B) (subOf A B) c.pred o.m none 0 known).map fun r => s!"call={k} pair=({o.s1},{o.s2}) {r}"
+        | _, _ => none
+      if geo.isSome then geo else
+      -- independent of every box: a pair of parts closer than the prediction must have its manifold
+      let Pr := q c.pred
+      let close : List (Nat × Nat) := (List.range n1).flatMap fun i => (List.range n2).filterMap fun j =>
+        match c.parts1[i]?, c.parts2[j]? with
+        | some A, some B =>
+          if A.ty == 1 && B.ty == 1 then none else
+          let D := exactDist3 (partShape A, partShape B) (subOf A B)
+          if D < Pr - (1 / 1000000) * (1 + rabs D + rabs Pr) && !ids.contains (i, j) then some (i, j) else none
+        | _, _ => none
+      if !close.isEmpty then some s!"call={k} no-manifold-for-pairs-within-prediction {close}" else
+      let tags := (List.range ms.length).zipWith (fun j i => (i, 1000 * (k + 1) + j + 1)) ids
+      go (k + 1) tags ps cs rest
+  match go 0 [] c.poses c.calls outs with
+  | some r => s!"fail {r}"
+  | none => "pass"
+
+/-! #### 3-D capsule / capsule called directly -/
+structure Cap3 where
+  pos12 : Iso3 Float
+  a1 : V3 Float
+  b1 : V3 Float
+  r1 : Float
+  a2 : V3 Float
+  b2 : V3 Float
+  r2 : Float
+  pred : Float
+  m : Manifold3 Float
+def pcap3 : P Cap3 := do
+  let p ← piso3; let a1 ← pv3; let b1 ← pv3; let r1 ← pf; let a2 ← pv3; let b2 ← pv3; let r2 ← pf; let pr ← pf; let m ← pman3
+  pure ⟨p, a1, b1, r1, a2, b2, r2, pr, m⟩
+
+/-- the generator writes the first contact only (stale extra points of a foreign manifold are kept): unit opposite normals,
+`dist` identity, witnesses in their capsules, a contact iff the exact capsule distance (exact segment/segment distance − radii)
+is below the prediction, and its `dist` equal to that distance -/
+def cap3Oracle (c : Cap3) (m' : Manifold3 Float) : String :=
+  if m'.points.length > 1 && m'.points.length != c.m.points.length then "fail point-count" else
+  let sh : Sh3 × Sh3 := (.capsuleAB (q3 c.a1) (q3 c.b1) (q c.r1), .capsuleAB (q3 c.a2) (q3 c.b2) (q c.r2))
+  let m1 : Manifold3 Float := { m' with points := m'.points.take 1 }
+  match manifoldOracle3 sh c.pos12 c.pred m1 none 0 true with
+  | some r => s!"fail {r}"
+  | none => "pass"
+
+/-! #### 2-D HeightField vs capsule: the sub-detector machine of `contact_manifolds_heightfield_shape` (keys = cell ids) -/
+
+abbrev WM2 := WManifold (Nat × Manifold2 Float) Unit
+
+/-- `ContactManifold::with_data(id1, id2, default)` with `(id1, id2) = if flipped { (0, i) } else { (i, 0) }` -/
+def freshHF (flipped : Bool) (i : Nat) : WM2 := freshCell flipped (0, Manifold2.new) i
+
+structure HFC2 where
+  base : HF2
+  /-- per call: the cells reported by `map_elements_in_local_aabb`, with their end points -/
+  calls : List (List (Nat × V2 Float × V2 Float))
+
+def phfc2 : P HFC2 := do
+  let c ← phf2
+  let calls ← (pN (plist (do let i ← pnat; let a ← pov2; let b ← pov2; pure (i, a, b))) c.poses.length) <|> pure []
+  pure ⟨c, calls⟩
+
+/-- the narrow phase of a cell: `Capsule::new(a, b, 0.0)` against the capsule, through the dispatcher's capsule/capsule generator;
+the flipped arm receives `pos12.inverse()` and hands `pos12.inverse().inverse()` on -/
+def hfcNarrow (c : HF2) (cells : List (Nat × V2 Float × V2 Float)) (P : Iso2 Float) (i : Nat) (m : WM2) : WM2 :=
+  match cells.find? (·.1 == i) with
+  | none => m
+  | some (_, a, b) =>
+    let oa : V2 Float := ⟨0.0, -c.q.x⟩; let ob : V2 Float := ⟨0.0, c.q.x⟩
+    let g := if c.flipped then capsuleCapsule2 ulpsEqF P.inverse.inverse oa ob c.q.y a b 0.0 c.pred m.data.2
+             else capsuleCapsule2 ulpsEqF P a b 0.0 oa ob c.q.y c.pred m.data.2
+    { m with data := (m.data.1, g) }
+
+def fwm2 (m : WM2) : String := s!"{m.subshape1} {m.subshape2} {m.data.1} {fman2 m.data.2}"
+def retag2 (k : Nat) (ms : List WM2) : List WM2 :=
+  (List.range ms.length).zipWith (fun i m => { m with data := (1000 * (k + 1) + i + 1, m.data.2) }) ms
+
+def hfcModel (h : HFC2) : Option String :=
+  if h.base.s2ty != 1 then some "unsupported" else
+  let clr : Nat × Manifold2 Float → Nat × Manifold2 Float := fun d => (d.1, d.2.clear)
+  let rec go (k : Nat) (ws : KWorkspace Nat) (ms : List WM2) : List (Iso2 Float) → List (List (Nat × V2 Float × V2 Float)) → Option (List String)
+    | [], _ => some []
+    | _, [] => none
+    | P :: ps, cells :: cs =>
+      match keyedStep (hfcNarrow h.base cells P) clr (freshHF h.base.flipped) ws ms (cells.map (·.1)) with
+      | none => some ["panic"]
+      | some (ws', ms') =>
+        let line := String.intercalate " " (toString ms'.length :: ms'.map fwm2)
+        (go (k + 1) ws' (retag2 k ms') ps cs).map (line :: ·)
+  (go 0 KWorkspace.new [] h.base.poses h.calls).map (String.intercalate " ")
+
+/-- bookkeeping clauses (one manifold per reported cell, in order, user data following its cell) + every clause of `hf2Oracle` -/
+def hfcOracle (h : HFC2) (outs : List (List (Nat × Nat × Nat × Manifold2 Float))) : String :=
+  if h.base.s2ty != 1 then "skip other-shape-not-a-capsule" else
+  if outs.length != h.base.poses.length || h.calls.length != h.base.poses.length then "fail wrong-number-of-calls" else
+  let rec go (k : Nat) (prev : List (Nat × Nat)) : List (List (Nat × V2 Float × V2 Float)) → List (List (Nat × Nat × Nat × Manifold2 Float)) → Option String
+    | [], _ => none
+    | _, [] => none
+    | cells :: cs, ms :: rest =>
+      let vis := cells.map (·.1)
+      let ids := ms.map fun (s1, s2, _, _) => if h.base.flipped then s2 else s1
+      if !vis.Nodup then some s!"call={k} cell-reported-twice {vis}" else
+      -- the reported end points are those of `segment_at`
+      let badCell := cells.findSome? fun (i, a, b) => match h.base.cells[i]? with
+        | some (some (a', b')) => if fv2 a == fv2 a' && fv2 b == fv2 b' then none else some s!"call={k} cell={i} end-points-differ-from-segment_at"
+        | _ => some s!"call={k} absent-cell-reported {i}"
+      if badCell.isSome then badCell else
+      if ids != vis then some s!"call={k} manifold-cells={ids} reported-cells={vis}" else
+      let badTag := (ms.zip ids).filter fun ((_, _, tag, _), i) =>
+        match prev.find? (·.1 == i) with
+        | some (_, t) => tag != t
+        | none => tag != 0
+      if !badTag.isEmpty then some s!"call={k} manifold-data-not-following-its-cell {badTag.map (·.2)}" else
+      let tags := (List.range ms.length).zipWith (fun j i => (i, 1000 * (k + 1) + j + 1)) ids
+      go (k + 1) tags cs rest
+  match go 0 [] h.calls outs with
+  | some r => s!"fail {r}"
+  | none => hf2Oracle h.base (outs.map fun ms => ms.map fun (s1, s2, _, m) => (s1, s2, m))
+
+/-! #### `PolygonalFeature::contacts` on two edges -/
+structure EE3 where
+  pos12 : Iso3 Float
+  e1a : V3 Float
+  e1b : V3 Float
+  e2a : V3 Float
+  e2b : V3 Float
+  sep : V3 Float
+  flipped : Bool
+def pee3 : P EE3 := do
+  let p ← piso3; let a ← pv3; let b ← pv3; let c ← pv3; let d ← pv3; let s ← pv3; let f ← pbool
+  pure ⟨p, a, b, c, d, s, f⟩
+
+/-- at most two contacts; each (un-flipped) has its first witness on edge 1, its second on edge 2 (frame of shape 2), and
+`dist = (pos12·p2 − p1)·sep_axis1` -/
+def ee3Oracle (e : EE3) (pts : List (Contact3 Float)) : String :=
+  if pts.length > 2 then "fail more-than-two-contacts" else
+  let A1 := q3 e.e1a; let B1 := q3 e.e1b; let A2 := q3 e.e2a; let B2 := q3 e.e2b
+  let M := qiso3 e.pos12; let S := q3 e.sep
+  if !(pts.all finc3) then
+    -- the clipping divides 0 by 0 when edge 2 projects to a single value on edge 1 (or edge 1 is a point)
+    let t := B1.sub A1; let u0 := ((M.act A2).sub A1).dot t; let u1 := ((M.act B2).sub A1).dot t
+    if t.normSq = 0 || rabs (u1 - u0) ≤ (1 + t.normSq + rabs u0 + rabs u1) / 1000000000000 then "skip zero-projected-length" else "fail nonfinite-output"
+  else
+  let ptol : Rat := (1 + A1.normSq + B1.normSq + A2.normSq + B2.normSq + M.t.normSq) / 1000000000000
+  let bad := pts.findSome? fun c0 =>
+    let c := qc3 c0
+    let p1 := if e.flipped then c.p2 else c.p1
+    let p2 := if e.flipped then c.p1 else c.p2
+    let d := ((M.act p2).sub p1).dot S
+    if segDistSq3 A1 B1 p1 > ptol then some s!"p1-off-edge-1 d²={segDistSq3 A1 B1 p1}"
+    else if segDistSq3 A2 B2 p2 > ptol then some s!"p2-off-edge-2 d²={segDistSq3 A2 B2 p2}"
+    else if !(close c.dist d) then some s!"dist-identity dist={c.dist} expected={d}"
+    else none
+  match bad with
+  | some r => s!"fail {r}"
+  | none => "pass"
+
+/-! #### pfm/pfm pairs whose support features are edges -/
+
+structure Pfm3 where
+  kind : Nat
+  a : V3 Float
+  b : V3 Float
+  pred : Float
+  poses : List (Iso3 Float)
+  /-- observed one-shot `contact` per pose -/
+  oneshot : List (Bool × Float)
+
+def ppfm3 : P Pfm3 := do
+  let k ← pnat; let a ← pv3; let b ← pv3; let pr ← pf
+  let poses ← plist piso3
+  let o ← (pN (do let f ← pbool; let d ← pfo; pure (f, d)) poses.length) <|> pure []
+  pure ⟨k, a, b, pr, poses, o⟩
+
+def pfmShapes (s : Pfm3) : Sh3 × Sh3 :=
+  let a := q3 s.a; let b := q3 s.b
+  let ca (p : V3 Rat) : Sh3 := .capsule p.x p.y
+  let cy (p : V3 Rat) : Sh3 := .cylinder p.x p.y
+  let co (p : V3 Rat) : Sh3 := .cone p.x p.y
+  let sg (p : V3 Rat) : Sh3 := .segment ⟨0, -p.x, 0⟩ ⟨0, p.x, 0⟩
+  match s.kind with
+  | 0 => (ca a, cy b) | 1 => (cy a, ca b) | 2 => (cy a, cy b) | 3 => (sg a, cy b) | 4 => (cy a, sg b)
+  | 5 => (ca a, co b) | 6 => (co a, ca b) | 7 => (sg a, ca b) | _ => (ca a, sg b)
+
+/-- per call: unit normals opposite within 1°, `dist` identity on every contact, every witness on its shape (warm-start
+drift `1e-3` per consecutive fast-path call, as for the other warm generators) -/
+def pfmOracle (s : Pfm3) (ms : List (Manifold3 Float)) : String :=
+  if ms.length != s.poses.length then "fail wrong-number-of-calls" else
+  let sh := pfmShapes s
+  let rec go : Nat → List (Iso3 Float) → List (Manifold3 Float) → Option String
+    | _, [], _ => none
+    | _, _, [] => none
+    | i, p :: ps, m :: ms =>
+      let drift : Rat := ((i : Rat) + 1) / 1000
+      match manifoldOracle3 sh p s.pred m none drift false with
+      | some r =>
+        -- shapes touching at EXACTLY zero distance: GJK/EPA has no direction to return (one-shot `contact` = Some(0)); its own verdict
+        -- a cone with a contact normal horizontal up to rounding (|dir.y| ≤ 1e-9): `Cone::local_support_feature` (`dir.y > 0.0`) returns the cap square, which
+        -- `contacts_face_face` then sees edge-on; its own verdict
+        let coneEdgeOn := (s.kind == 6 && Float.abs m.n1.y ≤ 1.0e-9) || (s.kind == 5 && Float.abs m.n2.y ≤ 1.0e-9)
+        match s.oneshot[i]? with
+        | some (true, d) =>
+          if Float.abs d ≤ 1.0e-12 then some s!"exact-touching-gjk-epa-degenerate call={i} {r}"
+          else if coneEdgeOn then some s!"cone-cap-seen-edge-on call={i} {r}" else some s!"call={i} {r}"
+        | _ => if coneEdgeOn then some s!"cone-cap-seen-edge-on call={i} {r}" else some s!"call={i} {r}"
+      | none => go (i + 1) ps ms
+  match go 0 s.poses ms with
+  | some r => s!"fail {r}"
+  | none => "pass"
+
+
+/-! #### `contact_manifold_pfm_pfm` on a fresh manifold, GJK answer and edge features observed -/
+structure PfmG where
+  s : Pfm3
+  pos12 : Iso3 Float
+  /-- `none`: GJK did not return closest points, or a support feature is not an edge -/
+  obs : Option (V3 Float × V3 Float × V3 Float × V3 Float × V3 Float × V3 Float × V3 Float × Float × Float)
+def ppfmg : P PfmG := do
+  let k ← pnat; let a ← pv3; let b ← pv3; let pr ← pf; let p ← piso3
+  let obs ← (do
+      let f ← pbool
+      if f then do
+        let p1 ← pov3; let p21 ← pov3; let dir ← pov3; let e1a ← pov3; let e1b ← pov3; let e2a ← pov3; let e2b ← pov3
+        let br1 ← pfo; let br2 ← pfo
+        pure (some (p1, p21, dir, e1a, e1b, e2a, e2b, br1, br2))
+      else pure none) <|> pure none
+  pure ⟨⟨k, a, b, pr, [p], []⟩, p, obs⟩
+
+def pfmgOracle (g : PfmG) (m : Manifold3 Float) : String :=
+  match g.obs with
+  | none => "skip not-edge-edge"
+  | some (p1, p21, _, _, _, _, _, _, _) =>
+    if m.points.length > 3 then "fail more-than-three-contacts" else
+    match manifoldOracle3 (pfmShapes g.s) g.pos12 g.s.pred m none 0 false with
+    | some r =>
+      -- GJK's witnesses coincide (up to an ulp): the shapes touch at exactly zero distance, no direction to return
+      if ((q3 p1).sub (q3 p21)).normSq ≤ 1 / 100000000000000000000 then s!"fail exact-touching-gjk-epa-degenerate {r}" else s!"fail {r}"
+    | none => "pass"
+
 def handler (fn : String) : Option Handler :=
   match fn with
   | "tuc3" => some {
@@ -1009,6 +1496,59 @@ def handler (fn : String) : Option Handler :=
       model := fun _ => some "oracle-only"
       oracle := fun a o => match run pseqt2 a with
         | some s => withOut (pN poman2 s.poses.length) o (seqtOracle2 s)
+        | none => "skip bad-args" }
+  | "css3" => some {
+      model := fun a => run (do let a1 ← pv3; let b1 ← pv3; let a2 ← pv3; let b2 ← pv3
+                                pure (match clipSegSeg3 a1 b1 a2 b2 with
+                                  | none => "none" | some (ca, cb) => s!"some {fclip3 ca} {fclip3 cb}")) a
+      oracle := fun a o => match run (do let a1 ← pv3; let b1 ← pv3; let a2 ← pv3; let b2 ← pv3; pure (a1, b1, a2, b2)) a with
+        | some (a1, b1, a2, b2) => withOut pclipOut3 o (cssOracle a1 b1 a2 b2)
+        | none => "skip bad-args" }
+  | "css2" => some {
+      model := fun a => run (do let a1 ← pv2; let b1 ← pv2; let a2 ← pv2; let b2 ← pv2
+                                pure (match clipSegSeg2 a1 b1 a2 b2 with
+                                  | none => "none" | some (ca, cb) => s!"some {fclip2 ca} {fclip2 cb}")) a
+      oracle := fun a o => match run (do let a1 ← pv2; let b1 ← pv2; let a2 ← pv2; let b2 ← pv2; pure (a1, b1, a2, b2)) a with
+        | some (a1, b1, a2, b2) => withOut pclipOut2 o (cssOracle (lift3 a1) (lift3 b1) (lift3 a2) (lift3 b2))
+        | none => "skip bad-args" }
+  | "cc3" => some {
+      model := fun a => match run pcc a with | some c => ccModel c | none => none
+      oracle := fun a o => match run pcc a with
+        | some c => withOut (pcalls c.poses.length) o (ccOracle c)
+        | none => "skip bad-args" }
+  | "cap3" => some {
+      model := fun a => run (do let c ← pcap3; pure (fman3 (capsuleCapsule3 ulpsEqF c.pos12 c.a1 c.b1 c.r1 c.a2 c.b2 c.r2 c.pred c.m))) a
+      oracle := fun a o => match run pcap3 a with
+        | some c => withOut poman3 o (cap3Oracle c)
+        | none => "skip bad-args" }
+  | "hfc2" => some {
+      model := fun a => match run phfc2 a with | some h => hfcModel h | none => none
+      oracle := fun a o => match run phfc2 a with
+        | some h => withOut (pN (plist (do let a ← pnat; let b ← pnat; let t ← pnat; let m ← poman2; pure (a, b, t, m))) h.base.poses.length) o (hfcOracle h)
+        | none => "skip bad-args" }
+  | "ee3" => some {
+      model := fun a => run (do let e ← pee3
+                                let cs := edgeEdge3 orthonormalBasis3 ulpsEqF e.pos12 e.e1a e.e1b e.e2a e.e2b e.sep e.flipped
+                                pure (String.intercalate " " (toString cs.length :: cs.map fcontact3))) a
+      oracle := fun a o => match run pee3 a with
+        | some e => withOut (plist pocontact3) o (ee3Oracle e)
+        | none => "skip bad-args" }
+  | "pfmg3" => some {
+      model := fun a => match run ppfmg a with
+        | some g => (match g.obs with
+          | none => some "skip"
+          | some (p1, p21, dir, e1a, e1b, e2a, e2b, br1, br2) =>
+            some (fman3 (pfmPfmEdgeGiven orthonormalBasis3 ulpsEqF g.pos12 p1 p21 dir e1a e1b e2a e2b br1 br2)))
+        | none => none
+      oracle := fun a o => match run ppfmg a with
+        | some g => (match g.obs with
+          | none => "skip not-edge-edge"
+          | some _ => withOut poman3 o (pfmgOracle g))
+        | none => "skip bad-args" }
+  | "pfm3" => some {
+      model := fun _ => some "oracle-only"
+      oracle := fun a o => match run ppfm3 a with
+        | some s => withOut (pmanlist3 s.poses.length) o (pfmOracle s)
         | none => "skip bad-args" }
   | _ => none
 
